@@ -67,7 +67,7 @@ func C19(c *Ctx) {
 	c.c19RecordedKey()
 	r.Rule("R19.6", "one index entry per slot: an index wrapper keyed by (account, nonce, time) that records the time in a side map (items) replaces nothing when the same slot is inserted with a new time (the btree key differs). Its raw insertion (ReplaceOrInsert + items[slot] = time without looking the slot up) is therefore called only where the old entry of the slot has been taken out: on every path to the call an index.Delete was executed, or the items lookup of the slot answered 'absent'. Otherwise a superseded transaction leaves its entry behind, the eviction sweep resolves it to the replacement and evicts the young replacement with the old one's age.")
 	c.c19RawInsert()
-	r.NotDecided = append(r.NotDecided, "liveness ('included in one of the next batches'); drift of the counter over histories; goroutine confinement of the pool (see C20 R20.5)")
+	r.NotDecided = append(r.NotDecided, "liveness ('included in one of the next batches'); side maps that are not indices (allTxs[account].items after an eviction, seed C19-r9); drift of the counter over histories; goroutine confinement of the pool (see C20 R20.5)")
 
 	ra := c.fn("R19.1", mpPrefix+"RemoveAliveTimeoutTxs")
 	if ra != nil {
